@@ -666,4 +666,117 @@ def array_specs(tier="quick"):
         for e in ("<", ">"):
             out.append(("contracts.leaf", "make_array", (t, e, "read_0")))
             out.append(("contracts.leaf", "make_array", (t, e, "write_0")))
-    return out
+    return out + read0_specs()
+
+
+# ----------------------------------------------------------------------------------------------------
+# null-terminated readers, for every number of elements: inductive step on an abstract result list
+
+
+class AbsList:
+    """The result list of a _read_0 loop after k iterations: only its length is known symbolically; appends of the
+    current iteration are recorded."""
+
+    _pyvc_model = True
+
+    def __init__(self, k):
+        self.k = k
+        self.appended = []
+
+    def append(self, v):
+        self.appended.append(v)
+
+
+class _Read0Loop:
+    """Invariant (ghost k = elements read so far): stream.pos == p + k*size, len(result) == k, every element read so far
+    was non-zero. One arbitrary iteration: reads exactly one element at pos; zero -> leaves the loop without appending;
+    non-zero -> appends exactly that element. By induction the function returns the elements before the first zero
+    element and leaves the stream just after it."""
+
+    def __init__(self, case, stream, p, size, var):
+        self.case, self.stream, self.p, self.size, self.var = case, stream, p, size, var
+
+    def establish(self, it, frame, tag):
+        r = frame.locals[self.var]
+        it.ctx.prove(tag + "/starts-empty-at-p", (len(r) == 0) and it.ctx.eq(self.stream.pos, self.p) is True)
+
+    def havoc(self, it, frame, g0):
+        ctx = it.ctx
+        k = ctx.fresh_int("k")
+        ctx.assume(k >= 0)
+        self.stream.pos = _norm(zint(self.p) + k * self.size)
+        self.lst = AbsList(k)
+        frame.locals[self.var] = self.lst
+        for n in ("data", "value", "byte", "point", "bytes_read"):
+            frame.locals.pop(n, None)
+        self.k = k
+        self.mark = len(self.stream.log)
+        return {"k": k}
+
+    def at_exit(self, *a):
+        pass
+
+    def at_break(self, it, frame, g):
+        self.case.broke = True
+
+    def preserve(self, it, frame, g, tag):
+        ctx = it.ctx
+        k = g["k"]
+        seg = self.case.seg
+        el = [seg.at(_norm(zint(self.p) + k * self.size + j)) for j in range(self.size)]
+        ctx.prove(tag + "/consumes-exactly-one-element", ctx.eq(self.stream.pos, _norm(zint(self.p) + (k + 1) * self.size)))
+        ctx.prove(tag + "/appends-exactly-the-element-read", len(self.lst.appended) == 1)
+        if len(self.lst.appended) == 1 and self.case.tname not in PACKED_FLOAT:
+            ctx.prove(tag + "/continues-only-on-a-non-zero-element", z3.Or(*[zint(b) != 0 for b in el]))
+            ctx.prove(tag + "/appended-element-is-the-standard-decoding", self.case.spec_decode_ok(ctx, self.lst.appended[0], el))
+
+
+class Read0Case(LeafCase):
+    def __init__(self, tname, endian):
+        super().__init__(tname, endian, "read_0_any")
+        self.name = f"leafarray:{tname}{endian}.read_0[any length]"
+
+    def body(self, ctx):
+        from dissect.cstruct.types.char import Char
+        from dissect.cstruct.types.int import Int
+        from dissect.cstruct.types.packed import Packed
+        from dissect.cstruct.types.wchar import Wchar
+
+        cs = make_cs(self.endian)
+        T = getattr(cs, self.tname)
+        n = sizeof(self.tname)
+        D = SBytes.fresh("D")
+        p = z3.Int("p")
+        ctx.assume(p >= 0)
+        ctx.case_inputs.update(D=D, p=p)
+        s = SymStream(ctx, D, p)
+        self.seg = D.items[0]
+        self.broke = False
+        owner = next(k for k in T.__mro__ if "_read_0" in k.__dict__)
+        q = f"{owner.__name__}._read_0"
+        var = "buf" if self.tname in ("char", "wchar") else "result"
+        loop = _Read0Loop(self, s, p, n, var)
+        it = Interp(ctx, loopspecs={(q, 0): loop})
+        try:
+            r = it.call(T._read_0, [s])
+        except PyRaise as e:
+            ctx.prove("refuses-only-with-EOFError", e.cls is EOFError, info=e.cls.__name__)
+            k = getattr(loop, "k", None)
+            if k is not None:
+                ctx.prove("refuses-only-when-the-next-element-is-incomplete", z3.Not(zint(p) + (k + 1) * n <= zint(D.length())))
+            ctx.cover("eof")
+            return
+        ctx.cover("returns")
+        k = loop.k
+        el = [self.seg.at(_norm(zint(p) + k * n + j)) for j in range(n)]
+        ctx.prove("stops-at-the-first-zero-element", z3.And(*[zint(b) == 0 for b in el]) if self.tname not in PACKED_FLOAT else True)
+        ctx.prove("terminator-consumed", ctx.eq(s.pos, _norm(zint(p) + (k + 1) * n)))
+        ctx.prove("terminator-not-appended", len(loop.lst.appended) == 0)
+
+
+def make_read0(tname, endian):
+    return Read0Case(tname, endian)
+
+
+def read0_specs():
+    return [("contracts.leaf", "make_read0", (t, e)) for t in ("uint8", "int16", "uint32", "int64", "int24", "uint48") for e in ("<", ">")]
